@@ -230,8 +230,9 @@ namespace adept {
 	    // Extrapolate leftwards
 	    jmax = 1;
 	  }
-	  else if (extrap_policy == ADEPT_EXTRAPOLATE_CLAMP) {
-	    // Clamp at first value
+	  else if (extrap_policy == ADEPT_EXTRAPOLATE_CLAMP || xii == x(0)) {
+	    // Clamp at first value; a point exactly on the first knot
+	    // is in range whatever the extrapolation policy
 	    ans[i] = y[0];
 	    continue;
 	  }
@@ -245,8 +246,9 @@ namespace adept {
 	    // Extrapolate rightwards
 	    jmin = jmax-1;
 	  }
-	  else if (extrap_policy == ADEPT_EXTRAPOLATE_CLAMP) {
-	    // Clamp at final value
+	  else if (extrap_policy == ADEPT_EXTRAPOLATE_CLAMP || xii == x(jmax)) {
+	    // Clamp at final value; a point exactly on the final knot
+	    // is in range whatever the extrapolation policy
 	    ans[i] = y[jmax];
 	    continue;
 	  }
@@ -297,8 +299,9 @@ namespace adept {
 	    // Extrapolate leftwards
 	    jmax = 1;
 	  }
-	  else if (extrap_policy == ADEPT_EXTRAPOLATE_CLAMP) {
-	    // Clamp at first value
+	  else if (extrap_policy == ADEPT_EXTRAPOLATE_CLAMP || xii == x(0)) {
+	    // Clamp at first value; a point exactly on the first knot
+	    // is in range whatever the extrapolation policy
 	    ans[i] = y[0];
 	    continue;
 	  }
@@ -312,8 +315,9 @@ namespace adept {
 	    // Extrapolate rightwards
 	    jmin = jmax-1;
 	  }
-	  else if (extrap_policy == ADEPT_EXTRAPOLATE_CLAMP) {
-	    // Clamp at last value
+	  else if (extrap_policy == ADEPT_EXTRAPOLATE_CLAMP || xii == x(jmax)) {
+	    // Clamp at last value; a point exactly on the final knot
+	    // is in range whatever the extrapolation policy
 	    ans[i] = y[jmax];
 	    continue;
 	  }
